@@ -745,7 +745,7 @@ class Machine:
                         if isinstance(callee, Ptr) and callee.b == 0: s.ub_now('null-call', 'call through null function pointer')
                         raise Unsupported(f"indirect call to {callee}")
                     s.calls[name] = s.calls.get(name, 0) + 1
-                    if s.call_log is not None and name in s.log_names: s.call_log.append((name, args2))
+                    if s.call_log is not None and name in s.log_names: s.call_log.append((name, args2, len(stack)))
                     ov = s.override.get(name)
                     if ov is not None:
                         s.cur = fr; r = ov(s, *args2)
